@@ -120,13 +120,25 @@ func ruleLP(w *world.World, r *report.RuleResult) {
 					if p, op, ok := lockOp(d); ok && strings.HasSuffix(op, "unlock") {
 						deferred[p] = true
 					}
-					// defer func() { mu.Unlock() }()
+					// defer func() { mu.Unlock() }()   /   defer s.unlockStore()  (release wrapper)
+					var df *ssa.Function
 					if mc, ok := d.Call.Value.(*ssa.MakeClosure); ok {
-						for _, c := range world.Calls(mc.Fn.(*ssa.Function)) {
+						df = mc.Fn.(*ssa.Function)
+					} else if g := d.Call.StaticCallee(); g != nil && world.InModule(g) && g.Blocks != nil {
+						df = g
+					}
+					var unl func(f *ssa.Function, depth int)
+					unl = func(f *ssa.Function, depth int) {
+						for _, c := range world.Calls(f) {
 							if p, op, ok := lockOp(c); ok && strings.HasSuffix(op, "unlock") {
 								deferred[p] = true
+							} else if g := c.Common().StaticCallee(); g != nil && world.InModule(g) && g.Blocks != nil && depth < 2 {
+								unl(g, depth+1)
 							}
 						}
+					}
+					if df != nil {
+						unl(df, 0)
 					}
 				}
 			}
